@@ -129,11 +129,15 @@ structure Server extends Cfg where
 /-- the library name under which a caller-supplied decoder is looked up in the codec family -/
 def customLib (id : String) : String := "custom:" ++ id
 
+/-- identifier of a caller-supplied decoder that returns `nil, nil` ("nothing to decode", the convention of the
+built-in `""` entry): `ServeHTTP` then leaves `r.Body` alone — only the wire-side wrapper limits it -/
+def passThroughId : String := "nil"
+
 /-- `d.decoders` after `for key, dec := range decoders { d.decoders[key] = dec }`: a custom decoder overrides
 whatever the enable loop stored under that name, and is present whether or not the name is listed -/
 def decoderFor (s : Server) (name : String) : Option Entry :=
   match assoc s.custom name with
-  | some id => some (.lib (customLib id))
+  | some id => some (if id = passThroughId then .identity else .lib (customLib id))
   | none => assoc (buildEnabled s.enabled) name
 
 /-- `serve` with custom decoders (same wrappers, same dispatch) -/
